@@ -355,6 +355,30 @@ class Predicate(Contract):
         return {"single_value_and_one_month_series_agree": Iff(V(S.I.truth(r[0])), V(S.I.truth(r[1])))}
 
 
+class MixedPredicate(Contract):
+    """all_less_than_or_equal_to / any_less_than_or_equal_to accept a single value against a monthly series: the answer
+    is the documented broadcast (the single value compared with every month) and BOTH operands - values, labels and
+    the unit list - are left exactly as they were."""
+    prop = "C11"
+    file = FOOD
+    np_floats = True
+
+    def __init__(self, pred, order):
+        self.pred, self.order = pred, order
+        self.func = f"Food.{pred}"
+        self.name = f"{pred}({order[0]}, {order[1]})"
+
+    def inputs(self, S):
+        S.set_conversions(S.real("kd"), S.real("fd"), S.real("pd"), True, True, S.real("pop"))
+        s_, sv, sl = mk(S, "s", "plain", False)
+        l_, lv, ll = mk(S, "l", "plain", True)
+        ops_ = {"single value": s_, "series": l_}
+        return dict(args=[ops_[self.order[0]], ops_[self.order[1]]], s=s_, sv=sv, sl=sl, l=l_, lv=lv, ll=ll)
+
+    def ensures(self, S, p, res):
+        return {"operands_not_modified": And(unchanged(p["s"], p["sv"], p["sl"]), unchanged(p["l"], p["lv"], p["ll"]))}
+
+
 def _mk():
     cs = []
     for b in ("plain", "custom"):
@@ -401,6 +425,9 @@ def _mk():
     cs.append(Unary("get_month", "plain", True, numpy_index=True))
     cs.append(MinElementwise("plain", True))
     cs.append(MinElementwise("plain", False))
+    cs.append(MixedPredicate("all_less_than_or_equal_to", ("single value", "series")))
+    cs.append(MixedPredicate("all_less_than_or_equal_to", ("series", "single value")))
+    cs.append(MixedPredicate("any_less_than_or_equal_to", ("series", "single value")))
     for pr in BINARY_PREDS + UNARY_PREDS:
         for fat in (True, False):
             for prot in (True, False):
